@@ -206,8 +206,10 @@ def run_impl(case):
             mark = len(EVENTS)
             ref.append(_single(_mk(case, 1), case, i))
             ref_evs.append(EVENTS[mark:])
-        # arbitrary state of the global generator before the object is used
-        np.random.seed(case.get("gstate", 99))
+        # arbitrary state of the global generator before the object is used.  The seed is taken far outside the
+        # range of repetition seeds: with gstate = Nrep-1 and one draw the initial state would be IDENTICAL to the
+        # state a sequential run leaves behind, and "unchanged" could not be told from "seeded Nrep-1, one draw"
+        np.random.seed(10**6 + case.get("gstate", 99))
         np.random.random_sample(case.get("gdraws", 3))
         w0 = np.random.get_state()
         S = _mk(case, nrep)
